@@ -172,11 +172,10 @@ Aux:
 				}
 			}
 		case keyMode:
-			asym := Symbol(ad.Name)
-			if AmpAux == asym {
+			if strings.EqualFold(ad.Name, AmpAux) {
 				mode = auxMode
 			} else if !boundHere(ss, ad.Name) {
-				ss.Let(asym, ad.Default)
+				ss.Let(Symbol(ad.Name), ad.Default)
 			}
 		case auxMode:
 			val := ad.Default
